@@ -50,7 +50,7 @@ def run? (name : String) : Option Runner :=
   | "sem" => some fun k => k Sem.lineStep {}
   | "dominance" => some fun k => k Dominance.lineStep ()
   | "post_order" => some fun k => k PostOrder.lineStep ()
-  | "liveness" => some fun k => k Liveness.lineStep {}
+  | "liveness" => some fun k => k Liveness.lineStep ({}, 0)
   | "attr_value" => some fun k => k AttrValue.lineStep {}
   | "symbol_table" => some fun k => k SymbolTable.lineStep none
   | "arg_spec" => some fun k => k ArgSpec.lineStep ()
@@ -80,6 +80,9 @@ def run? (name : String) : Option Runner :=
   | "riscv_validate" => some fun k => k RiscV.TV.lineStep ()
   | "ir_wf" => some fun k => k IRWF.lineStep {}
   | "skeleton" => some fun k => k Skeleton.lineStep ()
+  | "disjoint_set" => some fun k => k DisjointSet.glineStep {}
+  | "register_stack" => some fun k =>
+      k RegAlloc.stackLineStep ({ z := false, allowInf := false, infBase := 1000 }, [{}])
   | _ => none
 
 end Xdsl.Registry
